@@ -37,7 +37,7 @@ ASSUMPTIONS = ["zero interest rate (interest is C06) so that the ledger knows th
                "ending in Broker.net_liquidation_value while the account is insolvent"]
 REQUIRED = ["C09:interest-ruin-reached", "C09:nonraising-valuation-is-current", "C09:insolvent-decision-trades-nothing", "C09:valuation-raises-iff-nonpositive", "C09:refused-after-end",
             "C09:reset-reenables", "C09:control-stays-solvent", "C09:exact-zero-is-insolvent"]
-REQUIRED_CATS = ["scenario:interest-ruin", "broker-level:insolvent", "ruin:latent", "ruin:nonlatent", "severity:exact-zero", "severity:below", "severity:far-below", "severity:control",
+REQUIRED_CATS = ["short-valued-at-zero-quote-before-rally", "scenario:interest-ruin", "broker-level:insolvent", "ruin:latent", "ruin:nonlatent", "severity:exact-zero", "severity:below", "severity:far-below", "severity:control",
                  "first-step", "later-step", "spot-long", "spot-short", "margined"]
 REQUIRED_HITS = ["Broker.transact", "Broker.rebalance", "Broker.net_liquidation_value"]
 TECHNIQUE = "runtime monitoring with fault injection: ruining price paths at every position of a step; ledger replay decides decision-time NLV; transact hook proves no trade"
@@ -90,6 +90,16 @@ def valuation_bl(ctx):
         b.transact(Trade(t, c, q, mid[c], mid[c], fees))
         led.trade(c, q, mid[c])
     crossed = False
+    for c in cs:
+        if gen.is_margined(c) and led.pos[c] < 0 and rng.random() < 0.5:
+            # a short's best case first: the quote collapses to exactly 0 and the account is valued there (the
+            # posted margin is then 0) - the rally that follows must still be charged in full
+            ex.process_EventNBBO(EventNBBO(t, c, 0.0, 0.0))
+            led.quote(c, 0.0, 0.0)
+            v0 = b.net_liquidation_value(False)
+            ctx.check("C09:nonraising-valuation-is-current", abs(v0 - led.nlv()) <= 1e-9 * led.scale(), got=v0, want=led.nlv(),
+                      step="zero-quote")
+            ctx.cat("short-valued-at-zero-quote-before-rally")
     for step in range(rng.randint(4, 12)):
         c = rng.choice(cs)
         # drift against the position
